@@ -522,3 +522,12 @@ B("PayloadTypeError no longer a TypeError", ["C02"], [("src/mqtt/error.py", "cla
 B("DISCONNECT with a body byte", ["C02"], [(PDU, "        header    = bytearray(2)\n        header[0] = 0xE0", "        header    = bytearray(3)\n        header[0] = 0xE0")], {"C02": ["S2"]})
 B("payload extended after the length was taken", ["C02"],
   [(PDU, "        header.extend(encodeLength(totalLen))\n        header.extend(varHeader)", "        payload.append(0)\n        header.extend(encodeLength(totalLen))\n        header.extend(varHeader)")], {"C02": ["S2"]})
+
+# ---------------------------------------------------------------- C08 interval lower bound
+IV = "src/mqtt/client/interval.py"
+B("Interval jitter subtracted", ["C08"], [(IV, "        self._value = min(self._value, self.maxDelay)\n        return self._value + random.random()", "        self._value = min(self._value, self.maxDelay)\n        return self._value - random.random()")], {"C08": ["R-GAP"]})
+B("Interval default factor 0.5", ["C08"], [(IV, "    def __init__(self, initial=2, maxDelay=1024, factor=2):", "    def __init__(self, initial=2, maxDelay=1024, factor=0.5):")], {"C08": ["R-GAP"]})
+B("Interval maxDelay may undercut initial", ["C08"], [(IV, "        self.maxDelay = max(initial, maxDelay)", "        self.maxDelay = maxDelay")], {"C08": ["R-GAP"]})
+B("IntervalLinear drops the initial term", ["C08"], [(IV, "        self._value = self.initial + (self._k*size)/self.bandwith", "        self._value = (self._k*size)/self.bandwith")], {"C08": ["R-GAP"]})
+B("PUBREL interval built from a constant", ["C08"], [(PS, "            reply.interval = Interval(initial=self._initialT)", "            reply.interval = Interval(initial=1)")], {"C08": ["R-GAP", "R-DELAY"]})
+N("IntervalLinear written with a local", ["C08"], [(IV, "        self._value = self.initial + (self._k*size)/self.bandwith", "        extra = (self._k*size)/self.bandwith\n        self._value = self.initial + extra")])
